@@ -256,7 +256,9 @@ func runFault(r *rand.Rand, dir string, thorough bool) {
 			func(_, srvStore string) bool { return storeHasAll(srvStore, idx) }},
 		{"make", true, func(url, work string) []string {
 			return []string{"make", "-n", "3", "-m", "1:4:16", "-s", url, filepath.Join(work, "made.caibx"), blobFile}
-		}, func(work, srvStore string) bool { return fromIndex(filepath.Join(work, "made.caibx"), int64(len(blob)), srvStore) }},
+		}, func(work, srvStore string) bool {
+			return fromIndex(filepath.Join(work, "made.caibx"), int64(len(blob)), srvStore)
+		}},
 		{"tar-i", true, func(url, work string) []string {
 			return []string{"tar", "-i", "-n", "3", "-m", "1:4:16", "-s", url, filepath.Join(work, "made.caidx"), src}
 		}, func(work, srvStore string) bool { return fromIndex(filepath.Join(work, "made.caidx"), -1, srvStore) }},
@@ -279,6 +281,78 @@ func runFault(r *rand.Rand, dir string, thorough bool) {
 			stop()
 			w.Emit(J{"ev": "cli", "fam": "fault", "cmd": d.name, "k": k, "injected": fs.hits > 0, "requests": fs.n, "exit": res.exit, "hung": res.hung,
 				"complete": d.complete(work, srvStore), "valid_inputs": fs.hits == 0, "out": res.last})
+		}
+	}
+}
+
+// local target stores whose writes fail (file size limit): a write error inside LocalStore has to reach the exit status
+func runLocalFault(r *rand.Rand, dir string) {
+	secs := map[string][]byte{}
+	blob := mkBlob(r, secs, "a b c d Z e")
+	blobFile := filepath.Join(dir, "blob")
+	must(os.WriteFile(blobFile, blob, 0644))
+	store := mkdir(filepath.Join(dir, "store"))
+	idx := chunkInto(store, blob)
+	idxFile := filepath.Join(dir, "blob.caibx")
+	writeIndex(idx, idxFile)
+	src := filepath.Join(dir, "src")
+	mkTree(r, src)
+	for _, limit := range []int{2, 6, 12, 100000} { // KiB; chunks are 1-16 KiB
+		for _, cmdname := range []string{"chop", "make", "tar-i", "cache"} {
+			work := mkdir(filepath.Join(dir, "work"))
+			target := mkdir(filepath.Join(work, "target"))
+			var args []string
+			var complete func() bool
+			readIdx := func(p string) (desync.Index, bool) {
+				f, err := os.Open(p)
+				if err != nil {
+					return desync.Index{}, false
+				}
+				defer f.Close()
+				mi, err := desync.IndexFromReader(f)
+				return mi, err == nil
+			}
+			switch cmdname {
+			case "chop":
+				args = []string{"chop", "-n", "3", "-s", target, idxFile, blobFile}
+				complete = func() bool { return storeHasAll(target, idx) }
+			case "make":
+				args = []string{"make", "-n", "3", "-m", "1:4:16", "-s", target, filepath.Join(work, "made.caibx"), blobFile}
+				complete = func() bool {
+					mi, ok := readIdx(filepath.Join(work, "made.caibx"))
+					return ok && mi.Length() == int64(len(blob)) && storeHasAll(target, mi)
+				}
+			case "tar-i":
+				args = []string{"tar", "-i", "-n", "3", "-m", "1:4:16", "-s", target, filepath.Join(work, "made.caidx"), src}
+				complete = func() bool {
+					mi, ok := readIdx(filepath.Join(work, "made.caidx"))
+					return ok && mi.Length() > 0 && storeHasAll(target, mi)
+				}
+			case "cache":
+				args = []string{"cache", "-n", "3", "-s", store, "-c", target, idxFile}
+				complete = func() bool { return storeHasAll(target, idx) }
+			}
+			quoted := []string{}
+			for _, a := range append([]string{binary}, args...) {
+				quoted = append(quoted, "'"+a+"'")
+			}
+			cmd := exec.Command("bash", "-c", fmt.Sprintf("ulimit -f %d; exec %s", limit, strings.Join(quoted, " ")))
+			cmd.Env = append(os.Environ(), "HOME=/nonexistent")
+			var se bytes.Buffer
+			cmd.Stderr = &se
+			err := cmd.Run()
+			exit := 0
+			if err != nil {
+				exit = 1
+			}
+			last := strings.TrimSpace(se.String())
+			if i := strings.LastIndexByte(last, '\n'); i >= 0 {
+				last = last[i+1:]
+			}
+			if len(last) > 160 {
+				last = last[:160]
+			}
+			w.Emit(J{"ev": "cli", "fam": "localfault", "cmd": cmdname, "k": limit, "exit": exit, "hung": false, "complete": complete(), "valid_inputs": limit >= 100000, "out": last})
 		}
 	}
 }
@@ -492,14 +566,25 @@ func runTar(r *rand.Rand, dir string, n int) {
 		mkTree(r, src)
 		want := treeDigest(src)
 		catar := filepath.Join(dir, "t.catar")
-		res1 := run("tar", catar, src)
+		// the archive path is reused: a larger archive of another tree is there already
+		big := mkdir(filepath.Join(dir, "big"))
+		mkTree(r, big)
+		for j := 0; j < 6; j++ {
+			x := make([]byte, 40000)
+			r.Read(x)
+			os.WriteFile(filepath.Join(big, fmt.Sprintf("extra%d", j)), x, 0644)
+		}
+		run("tar", catar, big)
+		// the source directory spelled in equivalent ways
+		spell := []string{src, src + "/", src + "/.", filepath.Dir(src) + "/./" + filepath.Base(src), src + "//"}[i%5]
+		res1 := run("tar", catar, spell)
 		dst := mkdir(filepath.Join(dir, "dst"))
 		res2 := run("untar", "--no-same-owner", catar, dst)
 		w.Emit(J{"ev": "cli", "fam": "tar", "cmd": "tar+untar", "k": i, "exit": res1.exit + res2.exit, "hung": res1.hung || res2.hung, "complete": treeDigest(dst) == want,
 			"valid_inputs": true, "out": res1.last + res2.last})
 		store := mkdir(filepath.Join(dir, "tstore"))
 		caidx := filepath.Join(dir, "t.caidx")
-		res3 := run("tar", "-i", "-n", "3", "-m", "1:4:16", "-s", store, caidx, src)
+		res3 := run("tar", "-i", "-n", "3", "-m", "1:4:16", "-s", store, caidx, spell)
 		dst2 := mkdir(filepath.Join(dir, "dst2"))
 		res4 := run("untar", "-i", "-n", "3", "-s", store, "--no-same-owner", caidx, dst2)
 		w.Emit(J{"ev": "cli", "fam": "tar", "cmd": "tar-i+untar-i", "k": i, "exit": res3.exit + res4.exit, "hung": res3.hung || res4.hung, "complete": treeDigest(dst2) == want,
@@ -530,6 +615,7 @@ func main() {
 	has := func(m string) bool { return *mode == "all" || strings.Contains(","+*mode+",", ","+m+",") }
 	if has("fault") {
 		runFault(r, mkdir(filepath.Join(*dir, "fault")), *thorough)
+		runLocalFault(r, mkdir(filepath.Join(*dir, "localfault")))
 	}
 	if has("extract") {
 		runExtract(r, mkdir(filepath.Join(*dir, "extract")), 60*mult)
@@ -544,7 +630,7 @@ func main() {
 		runMake(r, mkdir(filepath.Join(*dir, "make")), 8*mult)
 	}
 	if has("tar") {
-		runTar(r, mkdir(filepath.Join(*dir, "tar")), 3*mult)
+		runTar(r, mkdir(filepath.Join(*dir, "tar")), 5*mult)
 	}
 	must(w.Close())
 	os.RemoveAll(*dir)
